@@ -387,6 +387,7 @@ def classify_and_report(ctx, known_findings):
                 break
         if matched:
             ctx.known_hits[matched["id"]] = matched["what"]
+            ctx.count(f"known:{matched['id']}:{f['clause']}")
         else:
             violations.append(f)
     return violations
